@@ -49,6 +49,35 @@ def judge(ck, pid, path, label):
     return evs, mine
 
 
+def extension(ck, work, thorough):
+    """Beyond C05-C07: Multi.IsFlush/Column/Join/Stitch/Compose (MultiExt.tla). Drift only, never a verdict."""
+    r = vlib.tlc("Seq", "MultiExtMC", "MultiExtMC.cfg", workers=8, timeout=1200)
+    vlib.tlc_expect_ok(r, "MultiExtMC")
+    ck.mc("MultiExtMC (extension)", r, "laws of Multi Flush/Column/Join/Stitch/Compose on all grids <= 2 rows x 2 cells")
+    r = vlib.tlc("Seq", "MultiExtMC", "MultiExtNeg.cfg", workers=8, timeout=1200)
+    if r.violated != "StitchIsRowStitch":
+        raise vlib.Infra("negative control (Multi.Stitch without the flush) not refuted: %s" % r.violated)
+    ck.mc("MultiExtNeg (extension)", r, "Stitch without flushing first is refuted")
+    total, drift, first = 0, 0, None
+    for small in (False, True):
+        p = os.path.join(work, "multiext%d.ndjson" % small)
+        vlib.harness(["multiext", "-n", 6000 if thorough else 800, "-seed", ck.seed, "-out", p] + (["-small"] if small else []),
+                     cmd="vseq")
+        v, r = vlib.validate("Seq", "SeqTrace", "SeqTrace.cfg", p, timeout=3000)
+        ck.mc("trace:multiext%s (extension)" % ("-small" if small else ""), r, "%d events" % v["events"])
+        if v["fails"]:
+            raise vlib.Infra("extension events produced verdicts: %s" % v["fails"][:2])
+        total += v["events"]
+        drift += len(v["drift"])
+        if v["drift"] and first is None:
+            first = vlib.read_ndjson(p)[v["drift"][0] - 1]
+    ck.extra["extension_events"] = total
+    ck.extra["extension_drift"] = drift
+    if drift:
+        vlib.log("  [note] extension (MultiExt.tla): %d of %d Multi operations differ from the specification "
+                 "(drift, no verdict); first: %s" % (drift, total, json.dumps(first)[:700]))
+
+
 def run_seq(ck, tier, pid):
     thorough = tier == "thorough"
     work = vlib.scratch(pid.lower() + "-")
@@ -110,6 +139,8 @@ def run_seq(ck, tier, pid):
                 args = ["calls", "-n", 2 * n, "-seed", ck.seed + (1 if small else 0), "-out", p] + (["-small"] if small else [])
                 vlib.harness(args, cmd="vseq")
                 traces.append((tag, p))
+        if pid == "C07":
+            extension(ck, work, thorough)
         nontriv = set()
         sample_done = False
         for label, path in traces:
